@@ -226,6 +226,8 @@ func checkC36(w *World, r *Run) {
 	r.Check(wrapOK, ruleWrap, "WithTxReadClosers wraps readers[i] for every i", fn.Pos(), "full range loop", "not every returned reader is wrapped with the transaction-releasing close hook")
 
 	checkC36WithTx(w, r, ruleWithTx)
+	ruleTxChoice := r.Rule("tx-free-streaming-is-chosen-from-sound-capabilities", "F2", "the Capabilities of the erasure-coding store (from which GetObject decides to end the read transaction early) intersect the capabilities of every shard store, parity included", 1)
+	checkCapabilitiesOverAllStores(w, r, ruleTxChoice)
 	r.NotCovered("that callers close every reader (resource leak otherwise); database-level isolation of the read transaction")
 }
 
